@@ -64,6 +64,22 @@ fn oracle_suite<S: ShortGroupSignatureScheme>(em: &mut Emitter, rng: &mut Rng, s
     for n in 1..=max_n {
         let (pk, sk) = S::new_keys(NonZeroUsize::new(n).unwrap(), rng.chacha()).unwrap();
         let (pk2, _sk2) = S::new_keys(NonZeroUsize::new(n).unwrap(), rng.chacha()).unwrap();
+        // a fresh key has one generator per message position, all different
+        {
+            let kv = serde_json::to_value(&pk).unwrap_or_default();
+            for field in ["y", "y_blinds"] {
+                if let Some(a) = kv[field].as_array() {
+                    let pts: Vec<&str> = a.iter().filter_map(|x| x.as_str()).collect();
+                    for i in 0..pts.len() {
+                        for j in i + 1..pts.len() {
+                            if pts[i] == pts[j] {
+                                em.violation("key-generators-repeat", format!("{}: generators {} and {} of a fresh key ({}) are equal: positions are interchangeable", suite, i, j, field), json!({"suite": suite, "n": n, "pk": kv}));
+                            }
+                        }
+                    }
+                }
+            }
+        }
         for rep in 0..em.n(2, 6) {
             let msgs = if rep == 0 { vec![Scalar::ZERO; n] } else if rep == 1 { vec![-Scalar::ONE; n] } else { msg_vector(rng, n) };
             let sig = match S::sign(&sk, &msgs) {
@@ -86,6 +102,26 @@ fn oracle_suite<S: ShortGroupSignatureScheme>(em: &mut Emitter, rng: &mut Rng, s
                 m2[i] += Scalar::ONE;
                 if sig.verify(&pk, &m2).is_ok() {
                     em.violation("signature-verifies-with-changed-message", format!("{}: signature verifies with message {} changed", suite, i), replay.clone());
+                }
+            }
+            // changes that touch two positions at once: exchange, and moving an amount from one message to another
+            // (a verification that binds only a combination of the messages passes these and every single change)
+            for i in 0..n {
+                for j in i + 1..n {
+                    if msgs[i] != msgs[j] {
+                        let mut m2 = msgs.clone();
+                        m2.swap(i, j);
+                        if sig.verify(&pk, &m2).is_ok() {
+                            em.violation("signature-verifies-with-messages-exchanged", format!("{}: signature verifies with messages {} and {} exchanged", suite, i, j), replay.clone());
+                        }
+                    }
+                    let d = Scalar::from(5u64);
+                    let mut m3 = msgs.clone();
+                    m3[i] += d;
+                    m3[j] -= d;
+                    if sig.verify(&pk, &m3).is_ok() {
+                        em.violation("signature-verifies-with-amount-moved", format!("{}: signature verifies after moving an amount from message {} to message {}", suite, j, i), replay.clone());
+                    }
                 }
             }
             // every single-component change of the signature (through its JSON form)
